@@ -36,7 +36,7 @@ func boosted() map[string]int {
 	for k, v := range ops.DefaultWeights {
 		w[k] = v
 	}
-	for _, k := range []string{"reopen", "tpldoc", "tplstr", "md", "header", "footer"} {
+	for _, k := range []string{"reopen", "tpldoc", "tpldoc2", "tplstr", "md", "header", "footer"} {
 		w[k] *= 3
 	}
 	return w
@@ -47,6 +47,7 @@ var tails = [][]string{
 	{"header", "tpldoc"}, {"footer", "para", "tpldoc"}, {"fheader", "tpldoc", "reopen"}, {"image", "reopen", "image"},
 	{"table", "cellimg", "tpldoc"}, {"listitem", "footnote", "reopen", "listitem"}, {"md", "header", "tpldoc"},
 	{"tplstr", "image", "reopen"}, {"headerpn", "reopen", "tpldoc"}, {"props", "reopen", "stats"},
+	{"image", "tpldoc2"}, {"image", "header", "tpldoc2", "image"}, {"table", "cellimg", "tpldoc2"}, {"imagefile", "tpldoc2", "reopen"},
 }
 
 func genCase(t *rapid.T) Case {
@@ -140,7 +141,7 @@ func run(c Case) *kit.Result {
 			special = true
 		}
 		switch op.K {
-		case "tplstr", "tpldoc", "md", "reopen":
+		case "tplstr", "tpldoc", "tpldoc2", "md", "reopen":
 			special = true
 			res.Label("op:" + op.K)
 		}
@@ -211,6 +212,21 @@ func run(c Case) *kit.Result {
 			res.Count("save_errors", 1)
 		}
 	}
+	// documents that were replaced as the current one (template bases, the first of two renders of one template,
+	// the object before a reopen) are still valid documents of the caller: they must save to well-formed packages too,
+	// also when they are saved only now, after everything that happened since
+	for j, sd := range x.Side {
+		var sb []byte
+		var serr error
+		if p, st := kit.Try(func() { sb, serr = sd.ToBytes() }); p != nil {
+			res.Fail("C01.P0", "ToBytes of side document %d panicked: %v [%s]", j, p, st)
+			continue
+		}
+		if serr == nil {
+			CheckPackage(res, sb, fmt.Sprintf("side document %d (saved at the end)", j))
+			res.Label("side-document-saved")
+		}
+	}
 	ks := make([]string, 0, len(kinds))
 	for k := range kinds {
 		ks = append(ks, k)
@@ -255,6 +271,6 @@ func TestC01(t *testing.T) {
 		Gen:  genCase, Run: run, Findings: findings,
 		Assumptions: []string{"well-formedness is decided by the harness's own checker (encoding/xml strict + raw-token pass + attribute scanner), not by a schema validator",
 			"image data given to AddImageFromData really is of the declared format"},
-		MustSee: map[string]float64{"img:ext-not-png": 0.1, "str:control": 0.2, "op:reopen": 0.1, "op:tpldoc": 0.1, "op:md": 0.1, "entry:Save": 0.3},
+		MustSee: map[string]float64{"img:ext-not-png": 0.1, "str:control": 0.2, "op:reopen": 0.1, "op:tpldoc": 0.1, "op:md": 0.1, "entry:Save": 0.3, "op:tpldoc2": 0.05, "side-document-saved": 0.3},
 	})
 }
